@@ -18,6 +18,7 @@
 From Coq Require Import String Ascii List Bool Arith.
 Import ListNotations.
 Require Import V.Lib.PyStr.
+Require V.Lib.Harness.  (* so that the helper of the generated cases files is built with the model *)
 Open Scope string_scope.
 
 (* ---- declared references *)
